@@ -7,6 +7,7 @@ import (
 	"strings"
 
 	"j5verif/checker/core"
+	"j5verif/checker/rules"
 )
 
 // kindSpellings (R-FLOW/kinds): which Go values each scalar kind's setter arm
@@ -334,5 +335,255 @@ func dateExists(r *core.Run) {
 		o.Auto("%s", how)
 	} else {
 		o.Fail("three numbers are stored as they come: \"2020-13-45\" and \"2020-02-30\" decode to dates that do not exist, and a year beyond int32 wraps")
+	}
+}
+
+// timestampInRange (R-ERR/E4t): RFC3339 text can name instants a protobuf
+// Timestamp cannot hold (year 0000; the type starts at 0001-01-01). A decoder
+// that stores such a value produces a message other code rejects as invalid.
+// Every function of lib/j5reflect that turns parsed text (time.Parse) into a
+// Timestamp (timestamppb.New) has to ask the result whether it is valid and
+// return the error.
+func timestampInRange(r *core.Run) {
+	r.Rule("R-ERR/E4t", "in lib/j5reflect every function that calls time.Parse and builds a message with timestamppb.New calls CheckValid on that message in an `if` whose body returns a non-nil error: an instant outside the range of google.protobuf.Timestamp is an invalid timestamp and is rejected")
+	pk := r.P.Pkg("lib/j5reflect")
+	if pk == nil {
+		r.Fatal("anchor: package lib/j5reflect not found")
+		return
+	}
+	info := pk.TypesInfo
+	n := 0
+	core.AllFuncDecls(pk, func(fd *ast.FuncDecl) {
+		if fd.Body == nil {
+			return
+		}
+		parses := false
+		var made []*ast.AssignStmt
+		ast.Inspect(fd.Body, func(x ast.Node) bool {
+			switch y := x.(type) {
+			case *ast.CallExpr:
+				if core.CalleeName(info, y) == "time.Parse" {
+					parses = true
+				}
+			case *ast.AssignStmt:
+				if len(y.Lhs) == 1 && len(y.Rhs) == 1 {
+					if c, ok := core.Unparen(y.Rhs[0]).(*ast.CallExpr); ok && core.CalleeName(info, c) == "google.golang.org/protobuf/types/known/timestamppb.New" {
+						made = append(made, y)
+					}
+				}
+			}
+			return true
+		})
+		if !parses {
+			return
+		}
+		for _, as := range made {
+			n++
+			o := r.Add("R-ERR/E4t", "lib/j5reflect."+core.FuncName(fd)+" | parsed timestamp is in range", as.Pos(), "range check of a parsed timestamp")
+			id, _ := as.Lhs[0].(*ast.Ident)
+			ok := false
+			if id != nil {
+				obj := info.ObjectOf(id)
+				ast.Inspect(fd.Body, func(x ast.Node) bool {
+					is, isIf := x.(*ast.IfStmt)
+					if !isIf || is.Pos() < as.Pos() {
+						return true
+					}
+					checks := false
+					ast.Inspect(is, func(m ast.Node) bool {
+						if m == is.Body {
+							return false
+						}
+						if c, isCall := m.(*ast.CallExpr); isCall {
+							if sel, isSel := c.Fun.(*ast.SelectorExpr); isSel && (sel.Sel.Name == "CheckValid" || sel.Sel.Name == "IsValid") {
+								if rid, isID := core.Unparen(sel.X).(*ast.Ident); isID && info.ObjectOf(rid) == obj {
+									checks = true
+								}
+							}
+						}
+						return true
+					})
+					if checks && len(is.Body.List) > 0 {
+						if rs, isRet := is.Body.List[len(is.Body.List)-1].(*ast.ReturnStmt); isRet && len(rs.Results) > 0 && !core.IsNilIdent(info, rs.Results[len(rs.Results)-1]) {
+							ok = true
+						}
+					}
+					return true
+				})
+			}
+			if ok {
+				o.Auto("CheckValid is consulted and its error returned")
+			} else {
+				o.Fail("the Timestamp built from parsed text is stored without asking whether it is valid: \"0000-01-01T00:00:00Z\" decodes to seconds below the minimum of google.protobuf.Timestamp instead of being rejected as an invalid timestamp")
+			}
+		}
+	})
+	if n == 0 {
+		r.Fatal("R-ERR/E4t: no function of lib/j5reflect parses text into a Timestamp (timestampFromString)")
+	}
+}
+
+// documentEnds (R-ERR/E4e): a document is one JSON value. encoding/json's
+// token reader stops after the closing brace of the root object; text that
+// follows (`{…} garbage`, a second object) is neither decoded nor rejected
+// unless the decoder asks for the next token and accepts io.EOF only.
+func documentEnds(r *core.Run) {
+	r.Rule("R-ERR/E4e", "every function of internal/codec that creates a json.Decoder for a document compares an error of that decoder with io.EOF after decoding the root value, and no return hands back the result of the root decode directly (which would skip that comparison): trailing data after the document is rejected")
+	pk := r.P.Pkg(codecRel)
+	if pk == nil {
+		r.Fatal("anchor: package %s not found", codecRel)
+		return
+	}
+	info := pk.TypesInfo
+	n := 0
+	core.AllFuncDecls(pk, func(fd *ast.FuncDecl) {
+		if fd.Body == nil {
+			return
+		}
+		var mk *ast.CallExpr
+		ast.Inspect(fd.Body, func(x ast.Node) bool {
+			if c, ok := x.(*ast.CallExpr); ok && core.CalleeName(info, c) == "encoding/json.NewDecoder" {
+				mk = c
+			}
+			return true
+		})
+		if mk == nil {
+			return
+		}
+		n++
+		o := r.Add("R-ERR/E4e", codecRel+"."+core.FuncName(fd)+" | nothing follows the document", mk.Pos(), "end of the document")
+		eof := false
+		var bypass *ast.ReturnStmt
+		ast.Inspect(fd.Body, func(x ast.Node) bool {
+			switch y := x.(type) {
+			case *ast.IfStmt:
+				ast.Inspect(y.Cond, func(m ast.Node) bool {
+					if s, ok := m.(*ast.SelectorExpr); ok && s.Sel.Name == "EOF" {
+						if o := info.ObjectOf(s.Sel); o != nil && o.Pkg() != nil && o.Pkg().Path() == "io" {
+							eof = true
+						}
+					}
+					return true
+				})
+			case *ast.ReturnStmt:
+				for _, res := range y.Results {
+					if c, ok := core.Unparen(res).(*ast.CallExpr); ok {
+						if fn := core.CalleeFunc(info, c); fn != nil && fn.Pkg() == pk.Types {
+							if sig, ok := fn.Type().(*types.Signature); ok && sig.Recv() != nil && strings.HasSuffix(core.TypeStr(sig.Recv().Type()), "codec.decoder") {
+								bypass = y
+							}
+						}
+					}
+				}
+			}
+			return true
+		})
+		switch {
+		case bypass != nil:
+			o.Pos = r.P.Rel(bypass.Pos())
+			o.Fail("the result of the root decode is returned directly: whatever follows the root value (`{…} garbage`, a second document) is silently ignored")
+		case !eof:
+			o.Fail("the decoder is never asked whether the input ends after the root value (no comparison with io.EOF): trailing data is silently ignored")
+		default:
+			o.Auto("the token after the root value must be io.EOF")
+		}
+	})
+	if n == 0 {
+		r.Fatal("R-ERR/E4e: no function of %s creates a json.Decoder", codecRel)
+	}
+}
+
+// nullArmNotCounted (R-ERR/E4n): "explicit nulls for absent members" are a
+// documented spelling of absence. In a oneof the decoder counts the keys it
+// met and rejects more than one; a key whose value is null must not be
+// counted, or {"a": null, "b": 1} is rejected although it names one arm.
+func nullArmNotCounted(r *core.Run) {
+	r.Rule("R-ERR/E4n", "in decoder.decodeOneofInner the statement that adds a member's key to the list whose length decides `more than one key` runs only where the member is known to hold a value: it lies inside an `if` on the matched property's IsSet() placed after the value was decoded (a null decodes to nothing)")
+	fd, pk := r.P.FuncDecl(codecRel, "decoder.decodeOneofInner")
+	if fd == nil {
+		r.Fatal("anchor: codec.decoder.decodeOneofInner not found")
+		return
+	}
+	info := pk.TypesInfo
+	// the counted list: the operand of the `len(x) > 1` guard
+	var counted types.Object
+	core.InspectTree(pk, fd.Body, func(n ast.Node) bool {
+		if is, ok := n.(*ast.IfStmt); ok {
+			ast.Inspect(is.Cond, func(m ast.Node) bool {
+				if e, ok := m.(ast.Expr); ok && rules.IsLenGreaterThanOne(info, e) {
+					ast.Inspect(e, func(k ast.Node) bool {
+						if c, ok := k.(*ast.CallExpr); ok && core.CalleeName(info, c) == "builtin.len" {
+							if id, ok := core.Unparen(c.Args[0]).(*ast.Ident); ok {
+								counted = info.ObjectOf(id)
+							}
+						}
+						return true
+					})
+				}
+				return true
+			})
+		}
+		return true
+	})
+	o := r.Add("R-ERR/E4n", codecRel+".decoder.decodeOneofInner | null members are not counted", fd.Pos(), "which keys count towards `more than one key`")
+	if counted == nil {
+		o.Fail("the list whose length decides `more than one key` was not found")
+		return
+	}
+	var stack []ast.Node
+	found, guarded := false, false
+	ast.Inspect(fd.Body, func(n ast.Node) bool {
+		if n == nil {
+			stack = stack[:len(stack)-1]
+			return true
+		}
+		stack = append(stack, n)
+		as, ok := n.(*ast.AssignStmt)
+		if !ok || len(as.Lhs) != 1 || len(as.Rhs) != 1 {
+			return true
+		}
+		id, ok := as.Lhs[0].(*ast.Ident)
+		if !ok || info.ObjectOf(id) != counted {
+			return true
+		}
+		c, ok := core.Unparen(as.Rhs[0]).(*ast.CallExpr)
+		if !ok || core.CalleeName(info, c) != "builtin.append" {
+			return true
+		}
+		found = true
+		o.Pos = r.P.Rel(as.Pos())
+		for _, anc := range stack {
+			is, ok := anc.(*ast.IfStmt)
+			if !ok || !(is.Body.Pos() <= as.Pos() && as.End() <= is.Body.End()) {
+				continue
+			}
+			ast.Inspect(is.Cond, func(m ast.Node) bool {
+				if call, ok := m.(*ast.CallExpr); ok {
+					if sel, ok := call.Fun.(*ast.SelectorExpr); ok && sel.Sel.Name == "IsSet" && strings.HasSuffix(core.TypeStr(info.TypeOf(sel.X)), "j5reflect.Property") {
+						// the value was decoded before the test
+						decodedBefore := false
+						ast.Inspect(fd.Body, func(k ast.Node) bool {
+							if dc, ok := k.(*ast.CallExpr); ok && dc.End() <= is.Pos() && strings.HasSuffix(core.CalleeName(info, dc), "decoder).decodeValue") {
+								decodedBefore = true
+							}
+							return true
+						})
+						if decodedBefore {
+							guarded = true
+						}
+					}
+				}
+				return true
+			})
+		}
+		return true
+	})
+	switch {
+	case !found:
+		o.Fail("no append to the counted list found")
+	case guarded:
+		o.Auto("the key is counted only when the member holds a value after decoding")
+	default:
+		o.Fail("every key is counted, also one whose value is null: {\"a\": null, \"b\": 1} is rejected as `multiple keys` although an explicit null is the documented spelling of an absent member")
 	}
 }
